@@ -23,7 +23,7 @@ func refParse(md protoreflect.MessageDescriptor, b []byte, partial bool) (out st
 		}
 	}()
 	ref := dynamicpb.NewMessage(md)
-	if err := (proto.UnmarshalOptions{AllowPartial: partial}).Unmarshal(b, ref); err != nil {
+	if err := (proto.UnmarshalOptions{AllowPartial: partial, Resolver: corpusTypes}).Unmarshal(b, ref); err != nil {
 		return "err"
 	}
 	return "ok " + pbrender.Message(ref)
@@ -206,6 +206,7 @@ func streamUnmarshal(r *hx.Rng, cfs []*cfile, bs *builtSet) {
 			cs := fmt.Sprintf("variant=%s type=%s input=%s prefill=%s", bv.V.Name(), u.md.FullName(), hx.B(u.input), hx.B(u.pre))
 			sink.OracleN++
 			sink.Count("stream:" + u.stream)
+			outside := setCtx(bv, u.md, u.input)
 			if resp == "driver-died" {
 				continue
 			}
@@ -234,7 +235,9 @@ func streamUnmarshal(r *hx.Rng, cfs []*cfile, bs *builtSet) {
 					}
 					fail("generated Unmarshal disagrees with the reference on a legal encoding", cs, refStrict, resp, classify(cls, u.md, u.input))
 				}
-				sink.Add("unmarshal:"+bv.V.Name(), fmt.Sprintf("G UM@%s %s %d %s", bv.V.Name(), u.c.Term, idx, hx.B(u.input)), resp, len(u.input) > 0)
+				if !outside {
+					sink.Add("unmarshal:"+bv.V.Name(), fmt.Sprintf("G UM@%s %s %d %s", bv.V.Name(), u.c.Term, idx, hx.B(u.input)), resp, len(u.input) > 0)
+				}
 				// the variant generator must stay inside the hypothesis space of the C06 theorems (GenLegal.v),
 				// and the finding classifier must agree with the theorem's exclusion predicate
 				if bv == bs.variants[0] {
@@ -256,7 +259,9 @@ func streamUnmarshal(r *hx.Rng, cfs []*cfile, bs *builtSet) {
 				if strings.HasPrefix(resp, "ok ") && strings.HasPrefix(refStrict, "ok ") && resp != refStrict {
 					fail("generated Unmarshal and the reference both accept the input but decode different messages", cs, refStrict, resp, classify("um-silent-differs", u.md, u.input))
 				}
-				sink.Add("unmarshal:"+bv.V.Name(), fmt.Sprintf("G UM@%s %s %d %s", bv.V.Name(), u.c.Term, idx, hx.B(u.input)), resp, len(u.input) > 0)
+				if !outside {
+					sink.Add("unmarshal:"+bv.V.Name(), fmt.Sprintf("G UM@%s %s %d %s", bv.V.Name(), u.c.Term, idx, hx.B(u.input)), resp, len(u.input) > 0)
+				}
 			case "C17":
 				missing := refStrict == "err" && refPartial != "err"
 				if missing && resp != "err" {
@@ -265,7 +270,9 @@ func streamUnmarshal(r *hx.Rng, cfs []*cfile, bs *builtSet) {
 				if !missing && refStrict != "err" && resp == "err" {
 					fail("Unmarshal reported an error although all required fields are present", cs, refStrict, resp, classify("req-unmarshal-spurious", u.md, u.input))
 				}
-				sink.Add("unmarshal:"+bv.V.Name(), fmt.Sprintf("G UM@%s %s %d %s", bv.V.Name(), u.c.Term, idx, hx.B(u.input)), resp, len(u.input) > 0)
+				if !outside {
+					sink.Add("unmarshal:"+bv.V.Name(), fmt.Sprintf("G UM@%s %s %d %s", bv.V.Name(), u.c.Term, idx, hx.B(u.input)), resp, len(u.input) > 0)
+				}
 			case "C07":
 				// Unmarshal then Marshal: the unknown fields of the input must come out again, byte for byte
 				f := strings.Split(resp, " ")
@@ -281,16 +288,18 @@ func streamUnmarshal(r *hx.Rng, cfs []*cfile, bs *builtSet) {
 					fail("Size() does not account for the retained unknown fields", cs, fmt.Sprint(len(out)), f[1], "rt-size")
 				}
 				refIn := dynamicpb.NewMessage(u.md)
-				_ = (proto.UnmarshalOptions{AllowPartial: true}).Unmarshal(u.input, refIn)
+				_ = (proto.UnmarshalOptions{AllowPartial: true, Resolver: corpusTypes}).Unmarshal(u.input, refIn)
 				refOut := dynamicpb.NewMessage(u.md)
-				if err := (proto.UnmarshalOptions{AllowPartial: true}).Unmarshal(out, refOut); err != nil {
+				if err := (proto.UnmarshalOptions{AllowPartial: true, Resolver: corpusTypes}).Unmarshal(out, refOut); err != nil {
 					fail("re-marshaled bytes are not parsable by the reference", cs, "parsable", err.Error(), "rt-unparsable")
 					continue
 				}
 				if pbrender.Message(refIn) != pbrender.Message(refOut) {
 					fail("unknown fields (or known ones) were lost or altered by Unmarshal followed by Marshal", cs, pbrender.Message(refIn), pbrender.Message(refOut), classify("rt-lost", u.md, u.input))
 				}
-				sink.Add("roundtrip:"+bv.V.Name(), fmt.Sprintf("G RT@%s %s %d %s", bv.V.Name(), u.c.Term, idx, hx.B(u.input)), f[1]+" "+canonHex(u.md, f[2]), len(u.input) > 0)
+				if !outside {
+					sink.Add("roundtrip:"+bv.V.Name(), fmt.Sprintf("G RT@%s %s %d %s", bv.V.Name(), u.c.Term, idx, hx.B(u.input)), f[1]+" "+canonHex(u.md, f[2]), len(u.input) > 0)
+				}
 			case "C10":
 				if bv.V.Unsafe {
 					sink.Count("alias:unsafe-variant-skipped")
@@ -299,7 +308,9 @@ func streamUnmarshal(r *hx.Rng, cfs []*cfile, bs *builtSet) {
 				if strings.HasPrefix(resp, "ok changed") {
 					fail("message decoded in safe mode changed when the input buffer was overwritten", cs, "unchanged", resp, "alias")
 				}
-				sink.Add("alias:"+bv.V.Name(), fmt.Sprintf("G AL@%s %s %d %s", bv.V.Name(), u.c.Term, idx, hx.B(u.input)), strings.Join(strings.Split(resp, " ")[:min(2, len(strings.Split(resp, " ")))], " "), len(u.input) > 0)
+				if !outside {
+					sink.Add("alias:"+bv.V.Name(), fmt.Sprintf("G AL@%s %s %d %s", bv.V.Name(), u.c.Term, idx, hx.B(u.input)), strings.Join(strings.Split(resp, " ")[:min(2, len(strings.Split(resp, " ")))], " "), len(u.input) > 0)
+				}
 			}
 		}
 	}
@@ -322,7 +333,7 @@ func dupSingularMsg(md protoreflect.MessageDescriptor, b []byte) bool {
 		if m < 0 {
 			return false
 		}
-		fd := md.Fields().ByNumber(num)
+		fd := fieldByNumber(md, num)
 		if fd != nil && typ == protowire.BytesType && fd.Kind() == protoreflect.MessageKind {
 			val, _ := protowire.ConsumeBytes(b[n:])
 			if fd.IsMap() {
@@ -357,7 +368,7 @@ func hasNegZero(md protoreflect.MessageDescriptor, b []byte) bool {
 		if m < 0 {
 			return false
 		}
-		if fd := md.Fields().ByNumber(num); fd != nil {
+		if fd := fieldByNumber(md, num); fd != nil {
 			implicit := fd.Syntax() == protoreflect.Proto3 && !fd.HasPresence() && !fd.IsList() && !fd.IsMap()
 			switch {
 			case implicit && fd.Kind() == protoreflect.FloatKind && typ == protowire.Fixed32Type:
@@ -412,7 +423,6 @@ func classify(base string, md protoreflect.MessageDescriptor, input []byte) stri
 	return base
 }
 
-
 // nestedUninit: some occurrence of a message-typed field (singular, oneof member, list element, map value;
 // a map entry without a value counts as the empty message), at any depth, is a message with a required
 // field unset.  Each occurrence is judged on its own bytes, as GenLegal.v does.
@@ -426,7 +436,7 @@ func nestedUninit(md protoreflect.MessageDescriptor, b []byte) bool {
 					bad = true
 				}
 			}()
-			if err := (proto.UnmarshalOptions{AllowPartial: true}).Unmarshal(payload, m); err != nil {
+			if err := (proto.UnmarshalOptions{AllowPartial: true, Resolver: corpusTypes}).Unmarshal(payload, m); err != nil {
 				bad = true
 			}
 		}()
@@ -444,7 +454,7 @@ func nestedUninit(md protoreflect.MessageDescriptor, b []byte) bool {
 		if k < 0 {
 			return false
 		}
-		if fd := md.Fields().ByNumber(num); fd != nil && typ == protowire.BytesType && fd.Kind() == protoreflect.MessageKind {
+		if fd := fieldByNumber(md, num); fd != nil && typ == protowire.BytesType && fd.Kind() == protoreflect.MessageKind {
 			val, _ := protowire.ConsumeBytes(b[n:])
 			if fd.IsMap() {
 				if vd := fd.MapValue(); vd.Kind() == protoreflect.MessageKind {
